@@ -165,12 +165,54 @@ func registerMisc(e *Engine) {
 	reg("strings.Clone", func(th *Thread, fn *ssa.Function, a []Value) Value { return a[0] })
 	reg("io.ReadAll", func(th *Thread, fn *ssa.Function, a []Value) Value {
 		r := a[0].(Iface)
-		// harness readers expose their whole content through ReadAllVerif
+		if r.t == nil {
+			th.runtimePanic("nil pointer dereference", "io.ReadAll(nil)")
+		}
+		// harness readers expose their whole content through VerifAll
 		if m := th.findMethod(r.t, "VerifAll"); m != nil {
 			return th.callFn(m, []Value{r.v}, nil)
 		}
+		if o, ok := r.v.(*Opaque); ok && o.kind == "bytesbody" {
+			b := o.data.(*bytesBody)
+			rest := b.data[b.pos:]
+			b.pos = len(b.data)
+			return Tuple{Slice{a: append([]Value{}, rest...)}, nilError()}
+		}
 		th.st.abort("io.ReadAll over %v not modelled", r.t)
 		return nil
+	})
+	// http.NewRequest / NewRequestWithContext: a minimal request (method, empty
+	// URL, empty header, body); url parsing is not modelled
+	newReq := func(th *Thread, fn *ssa.Function, method *StrVal, url *StrVal, body Iface) Value {
+		rt := mustDeref(fn.Signature.Results().At(0).Type())
+		cell := new(Value)
+		req := zero(rt).(Struct)
+		st := rt.Underlying().(*types.Struct)
+		for i := 0; i < st.NumFields(); i++ {
+			switch st.Field(i).Name() {
+			case "Method":
+				req[i] = method
+			case "Header":
+				req[i] = &MapVal{}
+			case "URL":
+				u := new(Value)
+				*u = zero(mustDeref(st.Field(i).Type()))
+				req[i] = u
+			case "Body":
+				if body.t != nil {
+					data := th.readerContents(body)
+					req[i] = Iface{t: types.Typ[types.UnsafePointer], v: &Opaque{kind: "bytesbody", data: &bytesBody{data: data}}}
+				}
+			}
+		}
+		*cell = req
+		return Tuple{cell, nilError()}
+	}
+	reg("net/http.NewRequest", func(th *Thread, fn *ssa.Function, a []Value) Value {
+		return newReq(th, fn, a[0].(*StrVal), a[1].(*StrVal), a[2].(Iface))
+	})
+	reg("net/http.NewRequestWithContext", func(th *Thread, fn *ssa.Function, a []Value) Value {
+		return newReq(th, fn, a[1].(*StrVal), a[2].(*StrVal), a[3].(Iface))
 	})
 	reg("errors.New", func(th *Thread, fn *ssa.Function, a []Value) Value {
 		cell := new(Value)
@@ -321,4 +363,36 @@ func (st *State) externalGlobal(g *ssa.Global) Value {
 		return cell
 	}
 	return zero(t)
+}
+
+// bytesBody is the engine's request body (a reader over a fixed byte sequence).
+type bytesBody struct {
+	data   []Value
+	pos    int
+	closed int
+}
+
+// readerContents returns everything a *bytes.Reader / *bytes.Buffer /
+// harness reader would deliver.
+func (th *Thread) readerContents(r Iface) []Value {
+	if m := th.findMethod(r.t, "VerifAll"); m != nil {
+		res := th.callFn(m, []Value{r.v}, nil).(Tuple)
+		return res[0].(Slice).a
+	}
+	name := r.t.String()
+	if cell, ok := r.v.(*Value); ok && cell != nil {
+		if sv, ok := (*cell).(Struct); ok {
+			switch name {
+			case "*bytes.Reader":
+				s := sv[0].(Slice).a
+				i := int(sv[1].(*Term).Int())
+				return append([]Value{}, s[i:]...)
+			case "*bytes.Buffer":
+				off := int(sv[1].(*Term).Int())
+				return append([]Value{}, sv[0].(Slice).a[off:]...)
+			}
+		}
+	}
+	th.st.abort("request body reader %s not modelled", name)
+	return nil
 }
